@@ -32,3 +32,25 @@ claim("C17", "MIR closure-body rules on every hashbrown probe + control-dependen
       "probed element's key with the looked-up key and the rehash closure returns the stored hash; that every disk hit rebuilt in Store::load "
       "is control-dependent on key.equivalent(loaded key) with the loaded payload coming from the engine; and that each memory operation "
       "hashes once and uses that hash for shard choice. Behaviour over histories with restarts is not decided.", "DESIGN.md §4 C17")
+claim("C01", "MIR ordering/dominance rules, comparison decision tables over sequences, ownership flow, identity-predicate discovery",
+      "Decides ten structural clauses: lookup order keeper->engine, key-equality guard on every disk hit, the (older,equal,newer) tables of the "
+      "index (insert_inner, remove_batch) and of recovery (dedup, regression stop), synchronous tombstone with the logged sequence, index update "
+      "control-dependent on successful writes and before the write-queue references are released, keeper removal guarded by record identity, "
+      "reject-deletes, counter restart strictly above every recovered entry and tombstone, phantom replace, both tiers on remove/clear. "
+      "Sufficiency of these under all interleavings is not decided.", "DESIGN.md §4 C01")
+claim("C02", "whole-program lock-region analysis (must-held contexts) + who-may-call + atomic-ordering table + dispatcher sibling agreement",
+      "Decides that every index/eviction mutation in the memory cache runs with the shard write lock held on every call path, reads under a "
+      "shard lock, no lock-bypass API is used; bodies that can run under the shared lock perform no plain UnsafeCell stores or list operations; "
+      "reference counts are incremented inside the critical section; refs/flag atomics use at least AcqRel/Release/Acquire; flags are written only "
+      "by their owners; all 30 five-way dispatchers forward to the same method. Linearizability of histories is not decided.", "DESIGN.md §4 C02")
+claim("C06", "lock-region must-analysis + ownership flow of waiter vectors + variant tables with constant propagation + comparison tables",
+      "Decides that probe+registration and publication+waiter-take each happen in one shard critical section (the latter under the write lock), "
+      "that every vector of waiters taken from the in-flight table ends in sends, the leader/waiter arms of enqueue, removal by leader id only on "
+      "equality, that error/cancel paths reach no insert, that the origin fetch builder runs only in try_set_required and not after a disk hit, "
+      "and — per RawFetchState variant — that a dropped task still owning the entry takes it by id and answers. Liveness is not decided.",
+      "DESIGN.md §4 C06")
+claim("C16", "whole-program lock-region / effect analysis over E-form MIR (exact drops) with drop-glue summaries, lock-order graph, yield check",
+      "The property is static; decided up to call-graph precision: no listener/weighter/filter/pipe call and no drop of a value owning a key or "
+      "value (Drop terminators, mem::drop, clearing container calls) while any foyer lock class may be held (11 one-construct allow-list entries "
+      "with the co-owner, 3 structural refinements), acyclic acquired-while-holding graph (1 hierarchical exception), no synchronous guard across "
+      "an await. Foreign dyn callbacks and opaque fetch-closure destructors are reported as observations.", "DESIGN.md §4 C16")
